@@ -237,7 +237,7 @@ they do not, and the code emits `[4,7)` (flushed when `[20,23)` arrived) BEFORE 
 example : (names wcfg [wm 4 7, wm 20 23, wm 30 31]).Pairwise (fun a b => a.s ≤ b.e) := by
   simp [names, nameOf, wcfg, wm, capLoop, Cfg.lookup]
 example : (runTags {} wcfg [] [wm 4 7, wm 20 23, wm 0 1]).map (·.name) = [⟨4, 7⟩, ⟨0, 1⟩, ⟨20, 23⟩] := by
-  simp [runTags, run, initSt, wcfg, wm, flushReady, ready, processMatch, processTag, capLoop, Cfg.lookup, qInsert, key, keyLt,
+  simp [runTags, run, initSt, wcfg, wm, flushReady, ready, processMatch, processTag, tagOf, capLoop, Cfg.lookup, qInsert, key, keyLt,
     drain, cacheStep, utf16LenV, utf16Len, lossyUnits, slice, lineRange, docsOf, joinDocs, Tag.isIgnored, usizeMax, isLocal,
     Option.filter, scan, maxLineLen]
 
@@ -279,5 +279,47 @@ theorem drain_skips_ignored : ∀ (n : Nat) (q : Queue), ∀ x ∈ drain true n 
 
 example : (drain false 1 [(Tag.ignored ⟨2, 3⟩, 0)]).map (·.isIgnored) = [true] := by
   simp [drain, ready, Tag.ignored, Tag.isIgnored]
+
+/-- **queue_lowest_pattern_run_partial.**  The per-insertion fact lifted to the whole loop: under the
+same arrival hypothesis as `queue_sorted_dedup_partial`, `runTags` is `runP` (the loop keeping the
+pattern indices) with the indices forgotten, every emitted entry is one of the entries inserted
+(`arrivals`), and its pattern index is minimal among ALL entries inserted for the same name range
+during the run.  Without the hypothesis it is false for the real code: see the finding
+C18-late-match-duplicate (a lower-index match arriving after its name range was flushed is
+emitted as a second tag). -/
+theorem queue_lowest_pattern_run_partial (v : Variant) (cfg : Cfg) (src : Bytes) (ms : List Mat)
+    (h : (names cfg ms).Pairwise (fun a b => a.s ≤ b.e)) :
+    runTags v cfg src ms = (runP v cfg src ms (initSt src)).map Prod.fst ∧
+    ∀ e ∈ runP v cfg src ms (initSt src),
+      e ∈ arrivals v cfg src ms (initSt src) ∧
+      ∀ a ∈ arrivals v cfg src ms (initSt src), key a.1 = key e.1 → e.2 ≤ a.2 := by
+  refine ⟨run_eq_P v cfg src ms (initSt src), fun e he => ?_⟩
+  have := runP_lowest v cfg src ms (initSt src) (by simp [initSt, QSorted]) (by simp [initSt]) h e he
+  refine ⟨?_, this.2.1⟩
+  rcases this.1 with hq | ha
+  · simp [initSt] at hq
+  · exact ha
+
+/-! ## Local scopes -/
+
+/-- **local_filter_spec.**  For every name, range and scope stack, the port of the
+`name_must_be_non_local` walk answers exactly the spec: among the scopes that enclose the name (most
+recently pushed first), walking outwards while `inherits` holds — up to and including the first scope
+that does not inherit — some scope holds a definition with the same text. -/
+theorem local_filter_spec (name : Bytes) (r : R) (scopes : Scopes) :
+    isLocal name r scopes = isLocalSpec name r scopes := isLocal_eq_spec name r scopes
+
+/-- **local_filter_iff.**  The spec in words: the name is omitted iff the enclosing scopes split as
+`pre ++ s :: post` with every scope of `pre` inheriting and `s` defining the same text. -/
+theorem local_filter_iff (name : Bytes) (r : R) (scopes : Scopes) :
+    isLocal name r scopes = true ↔
+      ∃ pre s post, scopes.filter (·.contains r) = pre ++ s :: post ∧
+        (∀ x ∈ pre, x.inherits = true) ∧ s.defs.any (· == name) = true := by
+  rw [isLocal_eq_spec]; exact visible_any_iff _ _
+
+/-- Non-vacuity: `x` defined in the outer scope, seen from an inheriting inner scope (omitted) and
+from a non-inheriting one (kept). -/
+example : isLocal [120] ⟨5, 6⟩ [⟨true, ⟨4, 8⟩, []⟩, ⟨false, ⟨0, 10⟩, [[120]]⟩] = true ∧
+          isLocal [120] ⟨5, 6⟩ [⟨false, ⟨4, 8⟩, []⟩, ⟨false, ⟨0, 10⟩, [[120]]⟩] = false := by decide
 
 end TsVerif.C18
